@@ -102,3 +102,37 @@ package cmd
 //@   invariant done: forall q :: 0 <= q && q < j ==> fp(sumValues[q]) == old(nsum(tsListList, archiveID, q, i + 1))
 //@   invariant rest: i > 0 ==> forall q :: j <= q && q < len(sumValues) ==> fp(sumValues[q]) == old(nsum(tsListList, archiveID, q, i))
 //@   invariant cur: mention(old(nsum(tsListList, archiveID, j, i + 1)))
+
+//@ func sumTimeSeriesListList
+//@   props C10 C11
+//@   requires len(tsListList) == 0 || forall k :: 0 <= k && k < len(tsListList[0]) ==> tsListList[0][k] != nil && sumInputsOK(tsListList, k)
+//@   ensures empty: len(tsListList) == 0 ==> len(result) == 0
+//@   ensures shape: len(tsListList) > 0 ==> len(result) == len(tsListList[0]) && fresh(result)
+//@   ensures each: len(tsListList) > 0 ==> forall k :: 0 <= k && k < len(result) ==> result[k] != nil && result[k].fromTime == tsListList[0][k].fromTime
+//@                 && result[k].untilTime == tsListList[0][k].untilTime && result[k].step == tsListList[0][k].step && len(result[k].values) == len(tsListList[0][k].values)
+//@ loop sumTimeSeriesListList#0
+//@   invariant bounds: 0 <= archiveID && archiveID <= len(sumTsList) && len(sumTsList) == len(tsListList[0]) && sumTsList.arr > old(top)
+//@   invariant each: forall k :: 0 <= k && k < archiveID ==> sumTsList[k] != nil && sumTsList[k].fromTime == tsListList[0][k].fromTime
+//@                 && sumTsList[k].untilTime == tsListList[0][k].untilTime && sumTsList[k].step == tsListList[0][k].step && len(sumTsList[k].values) == len(tsListList[0][k].values)
+
+//@ func filterPointsByTimeRange
+//@   props C18
+//@   requires r != nil
+//@   ensures fresh: len(result) == 0 || fresh(result)
+//@   ensures subset: forall j :: 0 <= j && j < len(result) ==> keptInRange(result[j].Time, from, ite(until == from, (until + r.secondsPerPoint) fmod 4294967296, until))
+//@   ensures count: len(result) == fcount(row(points), points.off, len(points), from, ite(until == from, (until + r.secondsPerPoint) fmod 4294967296, until))
+//@   ensures order: forall i :: 0 <= i && i < len(points) && keptInRange(points[i].Time, from, ite(until == from, (until + r.secondsPerPoint) fmod 4294967296, until))
+//@                 ==> 0 <= fcount(row(points), points.off, i, from, ite(until == from, (until + r.secondsPerPoint) fmod 4294967296, until))
+//@                     && fcount(row(points), points.off, i, from, ite(until == from, (until + r.secondsPerPoint) fmod 4294967296, until)) < len(result)
+//@                     && result[fcount(row(points), points.off, i, from, ite(until == from, (until + r.secondsPerPoint) fmod 4294967296, until))] == points[i]
+//@ spec keptInRange(t int, from int, until int) bool = !((from != 0 && t <= from) || t > until)
+//@ spec fcount(r row:Point, off int, n int, from int, until int) rec int = ite(n <= 0, 0, fcount(r, off, n - 1, from, until) + ite(keptInRange(r[off + n - 1].Time, from, until), 1, 0))
+//@ loop filterPointsByTimeRange#0
+//@   invariant bounds: 0 <= iter && iter <= len(points)
+//@   invariant fresh: (len(points2) == 0 && points2.arr == 0) || points2.arr > old(top)
+//@   invariant count: len(points2) == fcount(row(points), points.off, iter, from, until) && len(points2) <= iter
+//@   invariant next: fcount(row(points), points.off, iter + 1, from, until) >= fcount(row(points), points.off, iter, from, until)
+//@   invariant subset: forall j :: 0 <= j && j < len(points2) ==> keptInRange(points2[j].Time, from, until)
+//@   invariant order: forall i :: 0 <= i && i < iter && keptInRange(points[i].Time, from, until)
+//@                 ==> 0 <= fcount(row(points), points.off, i, from, until) && fcount(row(points), points.off, i, from, until) < len(points2)
+//@                     && points2[fcount(row(points), points.off, i, from, until)] == points[i]
